@@ -53,7 +53,7 @@ SPECS["C08"] = dict(
         "Woodpile.Props.C08.attempts_irrelevant",
         "Woodpile.Props.C08.arena_irrelevant",
     ],
-    families=[dict(name="chunker", quick=3000, thorough=48000)],
+    families=[dict(name="chunker", quick=3000, thorough=64000)],
     technique="Lean 4 proof (invariant over pump calls on top of the read_n model; all streams, well-behaved read schedules, "
               "block sizes and arena states) + model/implementation correspondence + reference splitter oracle",
     design_ref="DESIGN.md section 5, C08 (finding F1, observation O1)",
@@ -65,7 +65,7 @@ SPECS["C08"] = dict(
                 "end positions, Eof only at the end and sticky, Eof reached, Data chunks non-empty and FE FD-free, no straddle, "
                 "every Sentinel is an occurrence and regrouping the chunks yields exactly the left-to-right FE FD split of the "
                 "stream. The old clamp (1) is shown to break it (F1 witness). The model is tied to /repo by running the real "
-                "pump and the compiled model on the same enumerated (all streams over {FE,FD,01,61} up to length 5/7 x block "
+                "pump and the compiled model on the same enumerated (all streams over {FE,FD,01,61} up to length 5/6 x block "
                 "sizes 0-4 x read sizes) and random cases and diffing chunks, offsets, request sizes and reader positions; a "
                 "shadow-state oracle with a reference splitter re-checks the property on the real chunks."),
     level_note=("Trusted: Lean kernel + 3 standard axioms; the correspondence harness and its generators; std's Read::chain is "
@@ -95,7 +95,7 @@ SPECS["C06"] = dict(
         "Woodpile.Props.C06.resync_segment",
         "Woodpile.Props.C06.resync",
     ],
-    families=[dict(name="reader", quick=3000, thorough=32000)],
+    families=[dict(name="reader", quick=3000, thorough=48000)],
     technique="Lean 4 proof (per-chunk invariant of next_record_bytes over the C08 chunker model and the incremental decoder "
               "model; all streams, well-behaved read schedules, block sizes, judge parameters) + model/implementation "
               "correspondence + reference splitter/decoder oracle",
@@ -111,7 +111,7 @@ SPECS["C06"] = dict(
                 "whatever bytes surround it (resync). The theorems assume split-independence of the incremental decoder "
                 "(SplitIndep prod), which follows from the C01/C07 refinement theorem Dec = Spec.decode (splitIndep_of_spec); under "
                 "it the per-segment decoder is Spec.decode (decodePieces_eq_spec). The model is tied to /repo by running the real "
-                "StreamReader and the compiled model on the same enumerated (all streams over {FE,FD,00,01,61} up to length 5/6 x "
+                "StreamReader and the compiled model on the same enumerated (all streams over {FE,FD,00,01,61} up to length 5 x "
                 "block sizes x read sizes; the crate's test vectors x limits; scripted judges) and random cases (valid records, torn "
                 "writes, corruption, garbage, delimiter runs, block-aligned delimiters, EINTR, hard errors) and diffing records, "
                 "ranges, last_sentinel_offset and reader positions; an independent Rust reference splitter + reference HCOBS decoder "
